@@ -125,10 +125,15 @@ var genScalars = []reflect.Type{
 	reflect.TypeOf([]byte(nil)),
 }
 
+// the first genPlainKeys entries are the key types that round-trip (strings and every integer kind)
 var genKeyTypes = []reflect.Type{
-	reflect.TypeOf(""), reflect.TypeOf(int(0)), reflect.TypeOf(int8(0)), reflect.TypeOf(uint16(0)), reflect.TypeOf(GNamedString("")),
-	reflect.TypeOf(GKey("")), reflect.TypeOf(GTV{}), reflect.TypeOf(int64(0)), reflect.TypeOf(uint64(0)),
+	reflect.TypeOf(""), reflect.TypeOf(int(0)), reflect.TypeOf(int8(0)), reflect.TypeOf(int16(0)), reflect.TypeOf(int32(0)),
+	reflect.TypeOf(int64(0)), reflect.TypeOf(uint(0)), reflect.TypeOf(uint8(0)), reflect.TypeOf(uint16(0)), reflect.TypeOf(uint32(0)),
+	reflect.TypeOf(uint64(0)), reflect.TypeOf(uintptr(0)), reflect.TypeOf(GNamedString("")), reflect.TypeOf(GNamedInt(0)),
+	reflect.TypeOf(GKey("")), reflect.TypeOf(GTV{}),
 }
+
+const genPlainKeys = 14
 
 var genIface = reflect.TypeOf((*interface{})(nil)).Elem()
 
@@ -165,7 +170,7 @@ func (g *Gen) Type(depth int) reflect.Type {
 	case 6:
 		k := genKeyTypes[r.Intn(len(genKeyTypes))]
 		if g.NoLossy {
-			k = genKeyTypes[r.Intn(4)]
+			k = genKeyTypes[r.Intn(genPlainKeys)]
 		}
 		return reflect.MapOf(k, g.Type(depth-1))
 	case 7:
@@ -521,6 +526,17 @@ func matrixKinds() []matrixKind {
 		{reflect.TypeOf([0]int{}), []interface{}{[0]int{}}},
 		{reflect.TypeOf(map[string]int(nil)), []interface{}{map[string]int(nil), map[string]int{}, map[string]int{"k": 1, "a": 2}}},
 		{reflect.TypeOf(map[int]string(nil)), []interface{}{map[int]string(nil), map[int]string{}, map[int]string{-1: "m"}}},
+		{reflect.TypeOf(map[int8]int(nil)), []interface{}{map[int8]int{-128: 1, 127: 2, 0: 3}}},
+		{reflect.TypeOf(map[int16]int(nil)), []interface{}{map[int16]int{-32768: 1, -2: 2, 32767: 3}}},
+		{reflect.TypeOf(map[int32]int(nil)), []interface{}{map[int32]int{math.MinInt32: 1, -7: 2, math.MaxInt32: 3}}},
+		{reflect.TypeOf(map[int64]int(nil)), []interface{}{map[int64]int{math.MinInt64: 1, -7: 2, math.MaxInt64: 3}}},
+		{reflect.TypeOf(map[uint8]int(nil)), []interface{}{map[uint8]int{0: 1, 255: 2}}},
+		{reflect.TypeOf(map[uint16]int(nil)), []interface{}{map[uint16]int{0: 1, 65535: 2}}},
+		{reflect.TypeOf(map[uint32]int(nil)), []interface{}{map[uint32]int{0: 1, math.MaxUint32: 2}}},
+		{reflect.TypeOf(map[uint64]int(nil)), []interface{}{map[uint64]int{0: 1, math.MaxUint64: 2}}},
+		{reflect.TypeOf(map[uint]int(nil)), []interface{}{map[uint]int{0: 1, math.MaxUint64: 2}}},
+		{reflect.TypeOf(map[uintptr]int(nil)), []interface{}{map[uintptr]int{0: 1, math.MaxUint64: 2}}},
+		{reflect.TypeOf(map[GNamedInt]int(nil)), []interface{}{map[GNamedInt]int{-5: 1, 5: 2}}},
 		{reflect.TypeOf((*int)(nil)), []interface{}{(*int)(nil), &i7}},
 		{reflect.TypeOf((*string)(nil)), []interface{}{(*string)(nil), &s7}},
 		{reflect.TypeOf((*float64)(nil)), []interface{}{(*float64)(nil), &f7}},
